@@ -284,10 +284,13 @@ Definition parse_netcall (net : netcfg) (spec : bytes) : call := fun notes =>
   let k := nthf 0 ps in
   let join_res (p : prog (list bytes)) : prog bytes := bind p (fun rs => Ret (join [US] rs)) in
   if beqb k (bs "cmd") then net_send_command net cached (hexf 1 ps) (parse_flags (nthf 2 ps) default_opts)
+  else if beqb k (bs "cmdq") then bind (net_send_command net cached (hexf 1 ps) default_opts) (fun _ => Ret [])
   else if beqb k (bs "cmds") then join_res (net_send_commands net cached (hexlist (nthf 1 ps)) (parse_flags (nthf 2 ps) default_opts))
   else if beqb k (bs "cfgs") then join_res (net_send_configs net cached (hexf 1 ps) (hexlist (nthf 2 ps)) default_opts)
   else if beqb k (bs "acq") then bind (acquire_priv net cached (hexf 1 ps)) (fun _ => Ret [])
   else if beqb k (bs "gp") then get_prompt (n_chan net)
+  else if beqb k (bs "wr") then Write (hexf 1 ps) (parse_bool (nthf 2 ps)) (Ret [])
+  else if beqb k (bs "rt") then Write (c_ret (n_chan net)) false (Ret [])
   else if beqb k (bs "ia") then
     let o := parse_flags (nthf 2 ps) default_opts in
     let evs := match nthf 4 ps with [] => [] | f => map parse_event (split_on SEMI f) end in
